@@ -36,6 +36,16 @@ def setup_imports():
     return torchsde
 
 
+def die_with_parent():
+    """Worker processes must not outlive a check that is stopped from outside (PR_SET_PDEATHSIG, Linux only)."""
+    try:
+        import ctypes
+        import signal
+        ctypes.CDLL("libc.so.6", use_errno=True).prctl(1, signal.SIGKILL)
+    except Exception:  # noqa
+        pass
+
+
 class HarnessError(Exception):
     """The machinery itself is broken (exit 2) - never reported as a violation."""
 
